@@ -3,6 +3,7 @@ import Cose.Key.Ec
 import Cose.Props.C11
 import Cose.Props.C12
 import Cose.Go.Roundtrip
+import Cose.Msg.Model
 /-!
 # C17 — keys survive serialisation and always dispatch to their own algorithm
 
@@ -280,5 +281,29 @@ theorem lookup_exact (ks : List Key) (kidv : Option Bytes) (k : Key) (h : keySet
     (kid k).getD [] = kidv.getD [] ∧ k ∈ ks := by
   unfold keySetLookup at h
   exact ⟨by simpa using List.find?_some h, List.mem_of_find?_eq_some h⟩
+
+/-- … and it is the *first* such entry; none only if no entry has that key id -/
+theorem lookup_first (ks : List Key) (kidv : Option Bytes) :
+    keySetLookup ks kidv = none ↔ ∀ k ∈ ks, (kid k).getD [] ≠ kidv.getD [] := by
+  unfold keySetLookup
+  rw [List.find?_eq_none]
+  constructor
+  · intro h k hk he; exact h k hk (by simpa using he)
+  · intro h k hk; simpa using h k hk
+
+/-- the same for the verifier list a COSE_Sign is checked against (`Verifiers.Lookup`): exact match of the key id or
+    nothing — never "the only verifier", never a case-folded or prefix match -/
+theorem verifier_lookup_exact (vs : List Cose.Msg.Verifier) (kidv : Option Bytes) (v : Cose.Msg.Verifier)
+    (h : Cose.Msg.lookupVerifier vs kidv = some v) : v.key.kid.getD [] = kidv.getD [] ∧ v ∈ vs := by
+  unfold Cose.Msg.lookupVerifier at h
+  exact ⟨by simpa using List.find?_some h, List.mem_of_find?_eq_some h⟩
+
+theorem verifier_lookup_none (vs : List Cose.Msg.Verifier) (kidv : Option Bytes) :
+    Cose.Msg.lookupVerifier vs kidv = none ↔ ∀ v ∈ vs, v.key.kid.getD [] ≠ kidv.getD [] := by
+  unfold Cose.Msg.lookupVerifier
+  rw [List.find?_eq_none]
+  constructor
+  · intro h v hv he; exact h v hv (by simpa using he)
+  · intro h v hv; simpa using h v hv
 
 end Cose.Props.C17
